@@ -189,6 +189,117 @@ def case_from_capture(hexframe: str) -> dict:
     return {"frame": hexframe, "exp": exp}
 
 
+# ------------------------------------------------------------------------------------------------------ near-twin frames
+#
+# A near-twin of a frame X is a well-formed frame Y that equals X in most fields and differs in a few - above all in fields
+# that independent draws never hold equal: the same burst with the same addressing and sequence number whose opaque octets
+# (first header, reserved 3 / 7a / 2a / 2b / 1, the 34th payload octet) moved on ("the same burst 256 frames later"), or the same
+# opaque octets with ONE DMR-level field changed.  Decoding X and Y one after another, through both decoders, is the only way
+# to see an equality / a memo / a lookup key that is too wide (or too narrow).
+
+OPAQUE_FIELDS = ("first_header", "reserved_3", "reserved_7a", "reserved_2a", "reserved_2b", "reserved_1", "pad")
+DMR_FIELDS = ("seq", "packet_type", "frame_type", "cc", "ts", "dst", "src")
+TWIN_MODES = ("counter", "one_opaque", "pad_only", "all_opaque", "one_dmr_field", "one_dmr_field_and_opaque", "voice_bit")
+
+
+def twin_case(case: dict, changes: dict) -> dict:
+    """the single-frame case with some fields replaced; ``changes`` is plain JSON: opaque segments as hex, pad / seq / cc / ts / dst /
+    src as int, packet_type / frame_type by name, "burst_xor": [octet index 0..32, mask] for the burst octets.  The frame is
+    re-assembled by the reference encoder; expected values follow."""
+    d = ref.ipsc_dissect(bytes.fromhex(case["frame"]))
+    exp = dict(case["exp"])
+    swapped = bytearray(ref.swap16(d["payload34"]))
+    seg = {k: bytes(d[k]) for k in RES_LEN}
+    for k, v in changes.items():
+        if k in RES_LEN:
+            seg[k] = bytes.fromhex(v)
+            if len(seg[k]) != RES_LEN[k]:
+                raise HarnessError(f"twin segment {k} has the wrong length")
+        elif k == "pad":
+            swapped[33] = v
+        elif k == "burst_xor":
+            swapped[v[0]] ^= v[1]
+        elif k in DMR_FIELDS:
+            exp[k] = v
+        else:
+            raise HarnessError(f"unknown twin change {k}")
+    exp.update(burst=bytes(swapped[:33]).hex(), pad=swapped[33])
+    frame = ref.ipsc_frame(
+        exp["seq"], ref.IPSC_PACKET_TYPES[exp["packet_type"]], ref.IPSC_SLOT_TYPES[exp["slot_type"]], ref.IPSC_FRAME_TYPES[exp["frame_type"]],
+        ref.IPSC_CALL_TYPES[exp["call_type"]], exp["cc"], exp["ts"], exp["dst"], exp["src"], ref.swap16(bytes(swapped)), seg["first_header"],
+        seg["reserved_3"], seg["reserved_7a"], seg["reserved_2a"], seg["reserved_2b"], seg["reserved_1"],
+    )
+    out = {"frame": frame.hex(), "exp": exp}
+    if "prov" in case:
+        out["prov"] = case["prov"]
+    return out
+
+
+def twin_changes(rng, case: dict, mode: str) -> dict:
+    """changes (see twin_case) of one of the TWIN_MODES, every changed field really different from the frame's own value"""
+    d = ref.ipsc_dissect(bytes.fromhex(case["frame"]))
+    exp = case["exp"]
+
+    def other_octets(k):
+        cur = bytes(d[k])
+        mask = bytearray(len(cur))
+        mask[rng.randrange(len(cur))] = rng.randrange(1, 256)
+        if rng.random() < 0.5:
+            mask = bytearray(rng.randbytes(len(cur)))
+            mask[0] |= 1
+        return bytes(a ^ b for a, b in zip(cur, mask)).hex()
+
+    def dmr_change():
+        k = rng.choice(DMR_FIELDS)
+        if k == "seq":
+            return {k: (exp[k] + rng.choice([1, 255, 128, rng.randrange(1, 256)])) % 256}
+        if k == "cc":
+            return {k: (exp[k] + rng.randrange(1, 16)) % 16}
+        if k == "ts":
+            return {k: 3 - exp[k]}
+        if k in ("dst", "src"):
+            return {k: exp[k] ^ rng.choice([1, 0x100, 0x10000, 0x800000, rng.randrange(1, 2**24)])}
+        table = sorted(ref.IPSC_PACKET_TYPES if k == "packet_type" else ref.IPSC_FRAME_TYPES)
+        return {k: rng.choice([n for n in table if n != exp[k]])}
+
+    pad = lambda: {"pad": exp["pad"] ^ rng.choice([1, 0x80, 0xFF, rng.randrange(1, 256)])}
+    if mode == "counter":  # the 8-bit sequence number came round: only the counter-like reserved octets moved on
+        cur = int.from_bytes(bytes(d["reserved_3"]), "little")
+        return {"reserved_3": ((cur + rng.choice([1, 2, 256, 257, 65536])) % 2**24).to_bytes(3, "little").hex()}
+    if mode == "one_opaque":
+        k = rng.choice(OPAQUE_FIELDS)
+        return pad() if k == "pad" else {k: other_octets(k)}
+    if mode == "pad_only":
+        return pad()
+    if mode == "all_opaque":
+        return {**{k: other_octets(k) for k in RES_LEN}, **pad()}
+    if mode == "one_dmr_field":
+        return dmr_change()
+    if mode == "one_dmr_field_and_opaque":
+        k = rng.choice(sorted(RES_LEN))
+        return {**dmr_change(), k: other_octets(k)}
+    if mode == "voice_bit":  # one payload bit: only where any octet string is a valid payload (vocoder bits, sync / wake-up frames)
+        kind = exp.get("kind")
+        if kind == "raw" or expected_class(exp) != "Burst":
+            return {"burst_xor": [rng.randrange(33), 1 << rng.randrange(8)]}
+        if kind in ("va", "vx") or (kind == "captured" and exp["slot_type"].startswith("VoiceFrame")):
+            return {"burst_xor": [rng.randrange(13), 1 << rng.randrange(8)]}  # first 104 bits: vocoder payload
+        return {"reserved_2b": other_octets("reserved_2b")}
+    raise HarnessError(f"unknown twin mode {mode}")
+
+
+def make_twins(rng, case: dict, n: int, modes=None) -> list:
+    """n near-twins of a single-frame case (each derived from the case itself, modes rotating from a seeded start)"""
+    start = rng.randrange(len(TWIN_MODES))
+    out = []
+    for j in range(n):
+        mode = modes[j % len(modes)] if modes else TWIN_MODES[(start + j) % len(TWIN_MODES)]
+        t = twin_case(case, twin_changes(rng, case, mode))
+        t.pop("prov", None)
+        out.append(t)
+    return out
+
+
 def expected_class(exp) -> str:
     if exp["slot_type"] == "VoiceOrDataSync":
         return "HyteraIPSCSync"
@@ -336,6 +447,85 @@ def _observe_frame(h):
 REPEATS = 3  # every input object is decoded this many times by each entry point, alternating
 
 
+def _decode_all(frame: bytes, parsed: "_Parsed"):
+    """one frame through the four entry points"""
+    from okdmr.dmrlib.etsi.layer2.burst import Burst
+    from okdmr.dmrlib.hytera.hytera_ipsc import HyteraIPSC
+
+    return [
+        ("raw", call(Burst.from_hytera_ipsc, frame, clause="raw_decoder_no_exception")[1]),
+        ("raw", call(HyteraIPSC.from_ipsc_bytes, frame, clause="raw_decoder_no_exception")[1]),
+        ("generic", parsed.call(Burst.from_hytera_ipsc, "generic_decoder_no_exception")),
+        ("generic", parsed.call(HyteraIPSC.from_kaitai, "generic_decoder_no_exception")),
+    ]
+
+
+def _check_kept(i: int, frame: bytes, exp: dict, objs, phase: str, all_frames):
+    """objects decoded earlier from ``frame`` still show that frame's values (frame level, and burst level for bursts) and
+    as_ipsc_bytes() gives that frame's 72 octets"""
+    want = {"payload_bits": exp["burst"], "timeslot": exp["ts"], "sequence_no": exp["seq"], "colour_code": exp["cc"],
+            "frame_source_id": exp["src"], "frame_destination_id": exp["dst"]}
+    want_burst = {"class": expected_class(exp), "payload_bits": exp["burst"], "timeslot": exp["ts"], "sequence_no": exp["seq"], "source_id": exp["src"]}
+    if exp["dst"] != 0:
+        want_burst["target_id"] = exp["dst"]
+    n = len(all_frames)
+    for path, o in objs:
+        h = getattr(o, "hytera_ipsc", o)
+        obs = _observe_frame(h)
+        for k, v in want.items():
+            if obs[k] != v:
+                raise Fail(f"{path}_path_{phase}_{k}_equals_encoded_value", {"frame_index": i, "got": obs[k]}, v)
+        if h is not o:
+            bobs = _observe(o, path, with_as_bits=False)
+            for k, v in want_burst.items():
+                if bobs[k] != v:
+                    raise Fail(f"{path}_path_{phase}_burst_{k}_equals_encoded_value", {"frame_index": i, "got": bobs[k]}, v)
+        out = call(h.as_ipsc_bytes, clause=f"{path}_path_as_ipsc_bytes_no_exception")[1]
+        if not isinstance(out, bytes) or out != frame:
+            others = [j for j in range(n) if j != i and isinstance(out, bytes) and len(out) == 72 and any(out[k] != frame[k] and out[k] == all_frames[j][k] for k in range(72))]
+            raise Fail(f"{path}_path_{phase}_reencode_equal_octets",
+                       {"frame_index": i, "differing_offsets": [k for k in range(min(len(out), 72)) if out[k] != frame[k]], "got": out.hex() if isinstance(out, bytes) else type(out).__name__,
+                        "octets_of_other_frames_in_batch": others}, frame.hex())
+
+
+def _decode_twins(case):
+    """near-twins riding on a single-frame case (case["twins"]: single-frame cases that equal the judged frame in most fields) are
+    decoded through all four entry points BEFORE the judged frame; the objects are kept and judged after it"""
+    kept = []
+    for tw in case.get("twins") or []:
+        frame, exp = _integrity(tw)
+        kept.append((frame, exp, _decode_all(frame, _Parsed(frame, tw.get("prov")))))
+    return kept
+
+
+def _check_twins(kept, judged: bytes, judged_exp=None, judged_objs=None):
+    """the twins' objects still belong to the twins; with ``judged_objs`` (objects decoded from the judged frame after the twins)
+    also: those belong to the judged frame (values and 72 octets), not to a twin"""
+    frames = [k[0] for k in kept] + [judged]
+    for i, (frame, exp, objs) in enumerate(kept):
+        _check_kept(i, frame, exp, objs, "near_twin_decoded_before_the_judged_frame", frames)
+    if kept and judged_objs:
+        _check_kept(len(kept), judged, judged_exp, judged_objs, "judged_frame_decoded_after_near_twins", frames)
+
+
+def _twin_bucket(oracle):
+    """failures of a case that carries near-twins get their own clause ids (".._with_near_twins_decoded_first"): the history that
+    produced them is inside the case, so the stored case replays on its own; the same clause failing on a case without twins
+    points at state left by an earlier case of the process"""
+    import functools
+
+    @functools.wraps(oracle)
+    def wrapped(case):
+        try:
+            return oracle(case)
+        except Fail as f:
+            if case.get("twins") and "near_twin" not in f.clause:
+                f.clause = f.clause + "_with_near_twins_decoded_first"
+            raise
+
+    return wrapped
+
+
 def oracle_decode(case):
     """(R) each path returns the encoded values; (D) both paths agree; decoding neither alters its input object nor depends on
     how often the same input was decoded before (same bytes object / same parsed generic-parser object, 3 times per entry
@@ -351,6 +541,7 @@ def oracle_decode(case):
     if exp["dst"] != 0:
         want["target_id"] = exp["dst"]
     keep = bytes(bytearray(frame))  # independent copy of the input octets
+    twins = _decode_twins(case)
     parsed = _Parsed(frame, case.get("prov"))
     first = {}
     for i in range(REPEATS):
@@ -385,6 +576,8 @@ def oracle_decode(case):
         pass  # bytearray is outside the documented parameter type: not accepting it is fine
     if bytes(buf) != keep:
         raise Fail("raw_input_buffer_unchanged", bytes(buf).hex(), keep.hex())
+    if twins:
+        _check_twins(twins, frame, exp, _decode_all(frame, parsed))
 
 
 def _expect_frame(out, frame: bytes, path: str, what: str):
@@ -405,6 +598,7 @@ def _oracle_reencode(path: str):
         from okdmr.dmrlib.hytera.hytera_ipsc import HyteraIPSC
 
         keep = bytes(bytearray(frame))
+        twins = _decode_twins(case)
         parsed = _Parsed(frame, case.get("prov")) if path == "generic" else None
         for i in range(REPEATS):
             rep = "reencode_" if i == 0 else "repeat_decode_reencode_"
@@ -426,12 +620,13 @@ def _oracle_reencode(path: str):
             after = snapshot(parsed.obj)
             if after != parsed.before:
                 raise Fail("generic_parser_object_unchanged", "changed by as_ipsc_bytes / as_bytes", "unchanged")
+        _check_twins(twins, frame)
 
     return oracle
 
 
-oracle_reencode_raw = _oracle_reencode("raw")
-oracle_reencode_generic = _oracle_reencode("generic")
+oracle_reencode_raw = _twin_bucket(_oracle_reencode("raw"))
+oracle_reencode_generic = _twin_bucket(_oracle_reencode("generic"))
 
 
 # ------------------------------------------------------------------------------------------------------- generators
@@ -441,7 +636,11 @@ DEFAULTS = {"first_header": "5a5a", "reserved_3": "000000", "reserved_7a": "0005
 RES_LEN = {"first_header": 2, "reserved_3": 3, "reserved_7a": 7, "reserved_2a": 2, "reserved_2b": 2, "reserved_1": 1}
 
 
-def _strategy():
+def _strategy(twins: bool = True):
+    """single-frame cases; with ``twins`` about 40 % of them carry 1..3 near-twins (derived from the drawn frame by a generator
+    seeded with a drawn integer - a pure function of the draw)"""
+    import random
+
     from hypothesis import strategies as st
 
     u24 = st.one_of(st.sampled_from(ID_POINTS), st.integers(0, 2**24 - 1), st.integers(256, 2**24 - 1))
@@ -480,7 +679,15 @@ def _strategy():
     prov = st.one_of(st.just({"kind": "from_bytes"}), st.just({"kind": "closed"}), st.just({"kind": "deepcopy"}),
                      st.fixed_dictionaries({"kind": st.just("stream"), "prefix": prefix, "suffix": suffix}),
                      st.fixed_dictionaries({"kind": st.just("stream"), "prefix": prefix, "suffix": suffix}))
-    return st.tuples(header.flatmap(with_payload), prov).map(lambda t: dict(t[0], prov=t[1]))
+    single = st.tuples(header.flatmap(with_payload), prov).map(lambda t: dict(t[0], prov=t[1]))
+    if not twins:
+        return single
+
+    def add_twins(t):
+        case, n, seed = t
+        return dict(case, twins=make_twins(random.Random(seed), case, n)) if n else case
+
+    return st.tuples(single, st.sampled_from([0, 0, 0, 1, 1, 2, 3]), st.integers(0, 2**32 - 1)).map(add_twins)
 
 
 def _rand_params(rng, kind: str) -> dict:
@@ -529,7 +736,19 @@ def _classes(case):
            "pad." + ("00" if e["pad"] == 0 else "nonzero")]
     pv = case.get("prov") or {"kind": "from_bytes"}
     cls.append("parser_object." + pv["kind"] + (".with_trailing_octets" if pv.get("suffix") else ""))
+    for tw in case.get("twins") or []:
+        cls.append("near_twin_decoded_first." + _twin_relation(case, tw))
     return (min(e["dst"], e["src"]) >= 256 and e["cc"] != 0), cls
+
+
+def _twin_relation(a: dict, b: dict) -> str:
+    """how two single-frame cases differ: in opaque octets only / in DMR-level fields only / in both / not at all"""
+    fa, fb = bytes.fromhex(a["frame"]), bytes.fromhex(b["frame"])
+    opaque = set(range(0, 2)) | set(range(5, 8)) | set(range(9, 16)) | {24, 25, 58, 60, 61, 71}
+    diff = {k for k in range(72) if fa[k] != fb[k]}
+    if not diff:
+        return "identical"
+    return "opaque_octets_only" if diff <= opaque else "dmr_fields_only" if not (diff & opaque) else "dmr_fields_and_opaque_octets"
 
 
 def _record(sub):
@@ -550,6 +769,8 @@ def make_driver(n_quick: int, n_thorough: int):
         prng = ctx.rng("provenance", "captured")
         for ci, h in enumerate(CAPTURED_IPSC_FRAMES):
             case = dict(case_from_capture(h), prov=_rand_prov(prng, ci))
+            if ci % 2:
+                case["twins"] = make_twins(prng, case, 1 + ci % 3)
             ctx.run_case(sub.name, sub.oracle, case, ctx.tally)
             ctx.tally.case(sub.name, key=case, nontrivial=_classes(case)[0], cls="captured_frame")
 
@@ -576,10 +797,14 @@ def make_driver(n_quick: int, n_thorough: int):
                 kind = payload_kind(s, c)
                 case = make_case(_rand_header(rng, s, c, ts, cc, p, f), kind, _rand_params(rng, kind))
                 case["prov"] = _rand_prov(rng, len(seen))
+                if len(seen) % 3 == 1:
+                    case["twins"] = make_twins(rng, case, 1 + len(seen) % 2)
                 ctx.run_case(sub.name, sub.oracle, case, t)
                 nt, cls = _classes(case)
                 t.case(sub.name, nontrivial=nt and case["frame"] not in seen, cls="cross_product")
-                t.cls(sub.name, cls[-1])
+                for c in cls:
+                    if c.startswith(("parser_object.", "near_twin")):
+                        t.cls(sub.name, c)
                 seen.add(case["frame"])
             t.sample(sub.name, case)
 
@@ -624,9 +849,13 @@ def make_driver(n_quick: int, n_thorough: int):
                     bp = {"octets": (bytes([pad]) * 34).hex()}  # sync / wake-up payload all-00 / all-FF as well
                 case = make_case(h, kind, bp)
                 case["prov"] = _rand_prov(rng, n_done)
+                if n_done % 4 == 2:
+                    case["twins"] = make_twins(rng, case, 1 + n_done % 3)
                 n_done += 1
                 ctx.run_case(sub.name, sub.oracle, case, t)
                 t.case(sub.name, nontrivial=_classes(case)[0], cls=f"boundary.{label}")
+                for tw in case.get("twins") or []:
+                    t.cls(sub.name, "near_twin_decoded_first." + _twin_relation(case, tw))
             t.sample(sub.name, case)
 
         ctx.shards(bwork, bchunks)
@@ -646,14 +875,14 @@ def make_driver(n_quick: int, n_thorough: int):
 
 
 def oracle_interleaved(case):
-    """case = {"frames": [2..4 single-frame cases], "order": permutation of their indices}.  Phase 1 decodes every frame through
+    """case = {"frames": [2..6 single-frame cases], "order": permutation of their indices}.  Phase 1 decodes every frame through
     all four entry points (raw: Burst.from_hytera_ipsc(bytes), HyteraIPSC.from_ipsc_bytes; generic: Burst.from_hytera_ipsc(parsed),
     HyteraIPSC.from_kaitai) and keeps the objects; phase 2 visits the frames in the other order: every kept object must still
-    show its own frame's values and as_ipsc_bytes() must give its own 72 octets; phase 3 repeats that in the original order.
-    (State shared between decoded objects - a class-level holder, a cache keyed too coarsely - shows only here.)"""
-    from okdmr.dmrlib.etsi.layer2.burst import Burst
-    from okdmr.dmrlib.hytera.hytera_ipsc import HyteraIPSC
-
+    show its own frame's values (frame level and burst level) and as_ipsc_bytes() must give its own 72 octets, and the frame is
+    decoded AGAIN through the four entry points (X, Y, X again) - the fresh objects must satisfy the same clauses; phase 3
+    repeats the check of all objects, old and fresh, in the original order.
+    (State shared between decoded objects - a class-level holder, a cache / an equality keyed too coarsely - shows only here;
+    the batches contain near-twins: frames equal in the DMR-level fields and different in opaque octets only, and the reverse.)"""
     items = []
     shared = None
     if case.get("shared_stream"):
@@ -661,31 +890,18 @@ def oracle_interleaved(case):
     for idx, sub in enumerate(case["frames"]):
         frame, exp = _integrity(sub)
         parsed = _Parsed(frame, sub.get("prov"), obj=None if shared is None else shared[idx])
-        objs = [
-            ("raw", call(Burst.from_hytera_ipsc, frame, clause="raw_decoder_no_exception")[1]),
-            ("raw", call(HyteraIPSC.from_ipsc_bytes, frame, clause="raw_decoder_no_exception")[1]),
-            ("generic", parsed.call(Burst.from_hytera_ipsc, "generic_decoder_no_exception")),
-            ("generic", parsed.call(HyteraIPSC.from_kaitai, "generic_decoder_no_exception")),
-        ]
-        items.append((frame, exp, objs))
+        items.append((frame, exp, _decode_all(frame, parsed), parsed))
     n = len(items)
-    for phase, order in (("after_other_frames_were_decoded", case["order"]), ("second_pass", list(range(n)))):
-        for i in order:
-            frame, exp, objs = items[i]
-            want = {"payload_bits": exp["burst"], "timeslot": exp["ts"], "sequence_no": exp["seq"], "colour_code": exp["cc"],
-                    "frame_source_id": exp["src"], "frame_destination_id": exp["dst"]}
-            for path, o in objs:
-                h = getattr(o, "hytera_ipsc", o)
-                obs = _observe_frame(h)
-                for k, v in want.items():
-                    if obs[k] != v:
-                        raise Fail(f"{path}_path_{phase}_{k}_equals_encoded_value", {"frame_index": i, "got": obs[k]}, v)
-                out = call(h.as_ipsc_bytes, clause=f"{path}_path_as_ipsc_bytes_no_exception")[1]
-                if not isinstance(out, bytes) or out != frame:
-                    others = [j for j in range(n) if j != i and isinstance(out, bytes) and len(out) == 72 and any(out[k] != frame[k] and out[k] == items[j][0][k] for k in range(72))]
-                    raise Fail(f"{path}_path_{phase}_reencode_equal_octets",
-                               {"frame_index": i, "differing_offsets": [k for k in range(min(len(out), 72)) if out[k] != frame[k]], "got": out.hex() if isinstance(out, bytes) else type(out).__name__,
-                                "octets_of_other_frames_in_batch": others}, frame.hex())
+    frames = [it[0] for it in items]
+    again = {}
+    for i in case["order"]:
+        frame, exp, objs, parsed = items[i]
+        _check_kept(i, frame, exp, objs, "after_other_frames_were_decoded", frames)
+        again[i] = _decode_all(frame, parsed)
+        _check_kept(i, frame, exp, again[i], "decoded_again_after_other_frames", frames)
+    for i in range(n):
+        frame, exp, objs, parsed = items[i]
+        _check_kept(i, frame, exp, objs + again.get(i, []), "second_pass", frames)
 
 
 SEGMENT_MODES = ("00", "ff", "seeded", "default")
@@ -697,13 +913,51 @@ def _force_segments(rng, h: dict, mode: str) -> dict:
     return h
 
 
+def _batch_with_twins(rng, frames: list, n_twins: int, modes=None) -> list:
+    """inserts n near-twins (of seeded members of the batch - also twins of twins) at seeded positions"""
+    frames = list(frames)
+    for j in range(n_twins):
+        base = frames[rng.randrange(len(frames))]
+        tw = make_twins(rng, base, 1, modes and [modes[j % len(modes)]])[0]
+        tw["prov"] = _rand_prov(rng, rng.randrange(48))
+        frames.insert(rng.randrange(len(frames) + 1), tw)
+    return frames
+
+
+def _batch_classes(case):
+    fr = case["frames"]
+    rel = {_twin_relation(fr[i], fr[j]) for i in range(len(fr)) for j in range(i)}
+    out = []
+    for r in ("opaque_octets_only", "dmr_fields_only", "identical"):
+        if r in rel:
+            out.append("batch_contains_pair_differing_in." + r)
+    # "dmr_fields_and_opaque_octets" is what independent draws give; a pair that differs in ONE DMR-level field and opaque octets:
+    for i in range(len(fr)):
+        for j in range(i):
+            ea, eb = fr[i]["exp"], fr[j]["exp"]
+            if sum(ea[k] != eb[k] for k in DMR_FIELDS + ("slot_type", "call_type")) == 1 and ea["burst"] == eb["burst"]:
+                out.append("batch_contains_pair_differing_in.one_dmr_field")
+                return out
+    return out
+
+
 def drv_interleaved(ctx: Ctx, sub: SubCheck):
+    import random
+
     from hypothesis import strategies as st
 
-    single = _strategy()
-    batches = st.lists(single, min_size=2, max_size=4).flatmap(
-        lambda fr: st.tuples(st.permutations(list(range(len(fr)))), st.booleans(), st.sampled_from(["", "00" * 14, "ab" * 42])).map(
-            lambda o: {"frames": fr, "order": list(o[0]), "shared_stream": o[1], "stream_prefix": o[2]}))
+    single = _strategy(twins=False)
+
+    def build(t):
+        fr, n_tw, seed, shared, prefix = t
+        rng = random.Random(seed)
+        frames = _batch_with_twins(rng, fr, n_tw if len(fr) > 1 else max(1, n_tw))
+        order = list(range(len(frames)))
+        rng.shuffle(order)
+        return {"frames": frames, "order": order, "shared_stream": shared, "stream_prefix": prefix}
+
+    batches = st.tuples(st.lists(single, min_size=1, max_size=3), st.sampled_from([0, 1, 1, 2, 3]), st.integers(0, 2**32 - 1), st.booleans(),
+                        st.sampled_from(["", "00" * 14, "ab" * 42])).map(build)
 
     def rec(case, t: Tally):
         segs = {bytes.fromhex(f["frame"])[0:2] + bytes.fromhex(f["frame"])[5:8] + bytes.fromhex(f["frame"])[9:16] + bytes.fromhex(f["frame"])[24:26] + bytes.fromhex(f["frame"])[60:62] + bytes.fromhex(f["frame"])[71:72] for f in case["frames"]}
@@ -712,17 +966,24 @@ def drv_interleaved(ctx: Ctx, sub: SubCheck):
         if case["order"] != sorted(case["order"]):
             t.cls(sub.name, "second_phase_in_another_order")
         t.cls(sub.name, "parser_objects_share_one_stream" if case.get("shared_stream") else "parser_objects_of_separate_provenance")
+        for c in _batch_classes(case):
+            t.cls(sub.name, c)
 
     def hyp(i, t: Tally):
-        ctx.hypothesis(sub.name, batches, oracle_interleaved, ctx.pick(1600, 64000) // 16, tally=t, shard=i, record=rec)
+        # not shrunk: shrinking replays candidates in the process the first failure may have left dirty and drifts to batches that
+        # fail only there; the first failing batch of a process replays on its own
+        ctx.hypothesis(sub.name, batches, oracle_interleaved, ctx.pick(1200, 64000) // 16, tally=t, shard=i, record=rec, shrink=False)
 
     ctx.shards(hyp, list(range(16)))
 
     # deterministic batches: (1) captured frames in windows of 4, (2) seeded frames whose opaque segments are forced to differ
-    # (all-00 / all-FF / seeded / documented defaults rotate through the batch), every slot type, both orders reversed / rotated
+    # (all-00 / all-FF / seeded / documented defaults rotate through the batch), every slot type, both orders reversed / rotated,
+    # (3) near-twins: one seeded frame X of every slot type / a captured frame, 1..3 twins of it in every twin mode, with 0..2
+    # unrelated frames between them; orders: as decoded / reversed / rotated
     caps = [case_from_capture(h) for h in CAPTURED_IPSC_FRAMES]
     slots, calls = sorted(ref.IPSC_SLOT_TYPES), sorted(ref.IPSC_CALL_TYPES)
-    jobs = [("captured", i) for i in range(0, len(caps) - 3, 3)] + [("segments", i) for i in range(ctx.pick(360, 6000))]
+    jobs = ([("captured", i) for i in range(0, len(caps) - 3, 3)] + [("segments", i) for i in range(ctx.pick(240, 6000))]
+            + [("twins", i) for i in range(ctx.pick(len(TWIN_MODES) * 30, len(TWIN_MODES) * 600))])
 
     def work(chunk, t: Tally):
         ci, part = chunk
@@ -730,6 +991,20 @@ def drv_interleaved(ctx: Ctx, sub: SubCheck):
         for kind, i in part:
             if kind == "captured":
                 frames = caps[i : i + 4]
+            elif kind == "twins":
+                mode = TWIN_MODES[i % len(TWIN_MODES)]
+                k = i // len(TWIN_MODES)
+                if k % 6 == 5:
+                    base = caps[(k // 6) % len(caps)]
+                else:
+                    sl, cl = slots[k % 15], calls[(k // 15) % 4] if k % 5 == 0 else ["PrivateCall", "GroupCall"][k % 2]
+                    kd = payload_kind(sl, cl)
+                    base = make_case(_rand_header(rng, sl, cl, 1 + k % 2, (3 * k) % 16), kd, _rand_params(rng, kd))
+                frames = [base] + make_twins(rng, base, 1 + k % 3, [mode, mode, TWIN_MODES[(i + 3) % len(TWIN_MODES)]])
+                for _ in range((k // 3) % 3):  # unrelated frames between / around the twins
+                    sl = slots[rng.randrange(15)]
+                    kd = payload_kind(sl, "GroupCall")
+                    frames.insert(rng.randrange(1, len(frames) + 1), make_case(_rand_header(rng, sl, "GroupCall", 1 + rng.randrange(2), rng.randrange(16)), kd, _rand_params(rng, kd)))
             else:
                 n = 2 + i % 3
                 frames = []
@@ -740,18 +1015,95 @@ def drv_interleaved(ctx: Ctx, sub: SubCheck):
                     kd = payload_kind(sl, cl)
                     frames.append(make_case(h, kd, _rand_params(rng, kd)))
             n = len(frames)
-            order = list(reversed(range(n))) if i % 2 == 0 else [(k + 1) % n for k in range(n)]
+            order = list(range(n)) if (kind == "twins" and i % 3 == 2) else list(reversed(range(n))) if i % 2 == 0 else [(k + 1) % n for k in range(n)]
             frames = [dict(f, prov=_rand_prov(rng, i + j)) for j, f in enumerate(frames)]
             case = {"frames": frames, "order": order, "shared_stream": i % 3 == 1, "stream_prefix": ("", "00" * 14, rng.randbytes(42).hex())[i % 3]}
             ctx.run_case(sub.name, oracle_interleaved, case, t)
-            t.case(sub.name, nontrivial=True, cls=f"deterministic_batch.{kind}")
+            t.case(sub.name, nontrivial=True, cls=f"deterministic_batch.{kind}" + (f".{TWIN_MODES[i % len(TWIN_MODES)]}" if kind == "twins" else ""))
+            for c in _batch_classes(case):
+                t.cls(sub.name, c)
         t.sample(sub.name, case)
 
     ctx.shards(work, [(c, jobs[c::32]) for c in range(32)])
 
 
+# ------------------------------------------------------------------------------------------------------------ preludes
+#
+# Between the two judgements of a case the framework runs these calls (stimulus only): the judged frame's near-twins through
+# every sibling entry point (both decoders x Burst / HyteraIPSC, serialiser, repr, the burst octets through Burst.from_bytes and the
+# 16-bit word swap directly) and rightly refused variants of the same frame (truncated, an undefined value in each enumerated
+# field, an odd-length swap).
+
+
+def _op_decode(a):
+    """a = {"frame": hex, "generic": bool}: the frame through the raw (and generic) decoders, then serialise / repr every object"""
+    from okdmr.dmrlib.etsi.layer2.burst import Burst
+    from okdmr.dmrlib.hytera.hytera_ipsc import HyteraIPSC
+
+    frame = bytes.fromhex(a["frame"])
+    objs = []
+    steps = [lambda: Burst.from_hytera_ipsc(frame), lambda: HyteraIPSC.from_ipsc_bytes(frame)]
+    if a.get("generic", True):
+        steps += [lambda: Burst.from_hytera_ipsc(make_parser_object(frame)), lambda: HyteraIPSC.from_kaitai(make_parser_object(frame))]
+    for st_ in steps:
+        try:
+            objs.append(st_())
+        except Exception:
+            pass
+    for o in objs:
+        for fn in (lambda: getattr(o, "hytera_ipsc", o).as_ipsc_bytes(), lambda: repr(o), lambda: repr(getattr(o, "hytera_ipsc", o)),
+                   lambda: o.as_bytes() if hasattr(o, "as_bytes") else None, lambda: hash(getattr(o, "hytera_ipsc", o)),
+                   lambda: [getattr(o, "hytera_ipsc", o) == getattr(p, "hytera_ipsc", p) for p in objs]):
+            try:
+                fn()
+            except Exception:
+                pass
+
+
+def _op_burst33(a):
+    """a = {"burst": hex33, "vocoder": bool}: the same 33 burst octets through the plain burst constructors and the 16-bit word swap"""
+    from okdmr.dmrlib.etsi.layer2.burst import Burst
+    from okdmr.dmrlib.etsi.layer2.elements.burst_types import BurstTypes
+    from okdmr.dmrlib.utils.bits_bytes import byteswap_bytearray, byteswap_bytes, bytes_to_bits
+
+    octets = bytes.fromhex(a["burst"])
+    for fn in (lambda: byteswap_bytes(octets), lambda: byteswap_bytearray(bytearray(octets + b"\x00")), lambda: byteswap_bytes(octets[:-2]),
+               lambda: repr(Burst.from_bytes(octets, BurstTypes.Vocoder if a.get("vocoder") else BurstTypes.DataAndControl)),
+               lambda: Burst(full_bits=bytes_to_bits(octets), burst_type=BurstTypes.Undefined).as_bytes()):
+        try:
+            fn()
+        except Exception:
+            pass
+
+
+PRELUDE_OPS = {"decode": _op_decode, "burst33": _op_burst33}
+
+
+def prelude_for(sub, case, rng):
+    """calls derived from the case: near-twins of the judged frame(s) through every entry point, refused variants of the same
+    frame, the burst octets through the sibling constructors"""
+    try:
+        base = case["frames"][rng.randrange(len(case["frames"]))] if sub == "interleaved" else case
+        frame = bytes.fromhex(base["frame"])
+        calls = []
+        modes = rng.sample(TWIN_MODES, 3)
+        for m in modes:
+            calls.append({"x": "decode", "a": {"frame": twin_case(base, twin_changes(rng, base, m))["frame"], "generic": True}})
+        # rightly refused variants of the same frame: truncated; an undefined value in one enumerated field
+        bad = bytearray(frame)
+        off, val = rng.choice([(8, 0x40), (18, 0x12), (19, 0x34), (22, 0x12), (62, 0x07), (16, 0x33)])
+        bad[off] = val
+        calls.append({"x": "decode", "a": {"frame": bytes(bad).hex(), "generic": rng.random() < 0.5}})
+        calls.append({"x": "decode", "a": {"frame": frame[: rng.choice([71, 60, 26, 4, 0])].hex(), "generic": False}})
+        calls.append({"x": "burst33", "a": {"burst": base["exp"]["burst"], "vocoder": base["exp"]["slot_type"].startswith("VoiceFrame")}})
+        calls.append({"x": "decode", "a": {"frame": base["frame"], "generic": True}})
+        return calls
+    except (KeyError, IndexError, TypeError):
+        return []
+
+
 SUBCHECKS = [
-    SubCheck("decode", oracle_decode, make_driver(12000, 400000), "raw-bytes and generic-parser decoders: values equal the encoded ones and both paths agree"),
+    SubCheck("decode", _twin_bucket(oracle_decode), make_driver(12000, 400000), "raw-bytes and generic-parser decoders: values equal the encoded ones and both paths agree"),
     SubCheck("reencode_raw", oracle_reencode_raw, make_driver(5600, 200000), "as_ipsc_bytes of the frame decoded from raw bytes reproduces the 72 octets"),
     SubCheck("reencode_generic", oracle_reencode_generic, make_driver(5600, 200000), "as_ipsc_bytes of the frame decoded through the generic parser reproduces the 72 octets"),
     SubCheck("interleaved", oracle_interleaved, drv_interleaved, "batches of 2..4 different frames: decode all through every entry point, then re-serialise / re-observe in another order; each object keeps its own frame"),
